@@ -37,9 +37,29 @@ def confirm(seed, n):
         sh("git -C /repo worktree remove --force %s" % wt)
 
 
-def evaluate(diff, checks, tier="quick"):
-    assert not sh("git -C /repo status --porcelain").stdout.strip(), "/repo not clean"
+def evaluate(diff, checks, tier="quick", scratch=False):
+    """Default: apply to /repo, run, undo (the prescribed way).  --scratch: apply to a scratch worktree and point the
+    checks at it through VERIF_REPO (used only while long runs against /repo are in progress)."""
     res = {}
+    if scratch:
+        wt = "/tmp/evalrepo-%d" % os.getpid()
+        sh("git -C /repo worktree remove --force %s" % wt)
+        r = sh("git -C /repo worktree add -q %s HEAD" % wt)
+        r = sh("git apply %s" % diff, cwd=wt)
+        if r.returncode:
+            sh("git -C /repo worktree remove --force %s" % wt)
+            return {"error": "apply failed: " + r.stderr}
+        env = dict(os.environ, VERIF_REPO=wt, VERIF_NO_EVIDENCE="1")
+        try:
+            for c in checks:
+                p = subprocess.run("%s/.venv/bin/python %s/run.py %s --tier %s" % (ROOT, ROOT, c, tier), shell=True, capture_output=True,
+                                   text=True, cwd=ROOT, env=env)
+                lines = [l[:400] for l in p.stdout.splitlines() if l.startswith(("VIOLATION", "INCONCLUSIVE", "KNOWN", "  job="))]
+                res[c] = {"exit": p.returncode, "lines": lines[:8], "scratch": True}
+        finally:
+            sh("git -C /repo worktree remove --force %s" % wt)
+        return res
+    assert not sh("git -C /repo status --porcelain").stdout.strip(), "/repo not clean"
     r = sh("git -C /repo apply %s" % diff)
     if r.returncode:
         return {"error": "apply failed: " + r.stderr}
@@ -75,7 +95,7 @@ def main():
         print("%s-%d confirm: %s" % (prefix, n, json.dumps(c)[:500]))
         if not c["ok"]:
             continue
-        ev = evaluate("%s/change_%d.diff" % (seed, n), checks, tier)
+        ev = evaluate("%s/change_%d.diff" % (seed, n), checks, tier, scratch="--scratch" in sys.argv)
         print("%s-%d checks: %s" % (prefix, n, json.dumps(ev)[:900]))
         dst = os.path.join(ROOT, "seeded", "%s-%d" % (prefix, n))
         os.makedirs(dst, exist_ok=True)
